@@ -6,6 +6,7 @@ import (
 	"context"
 	"encoding/json"
 	"fmt"
+	"math"
 	"os"
 	"strings"
 	"testing"
@@ -56,6 +57,9 @@ type c30world struct {
 	// per-sequence statistics for the non-triviality rule
 	pendingCompleted int
 	kinds            map[string]bool
+	// ahead enables the wait(ahead) events; only (when non-nil) restricts the menu.
+	ahead bool
+	only  map[string]bool
 }
 
 func newC30World() world {
@@ -84,6 +88,9 @@ func (w *c30world) menu() []string {
 			m = append(m, "wait-stale")
 		}
 		m = append(m, "wait-0")
+		if w.ahead {
+			m = append(m, "wait-ahead1", "wait-ahead1000", "wait-max")
+		}
 	}
 	if np >= 1 {
 		m = append(m, "cancel-oldest")
@@ -94,7 +101,33 @@ func (w *c30world) menu() []string {
 	if !w.terminated {
 		m = append(m, "terminate")
 	}
+	if w.only != nil {
+		f := m[:0]
+		for _, e := range m {
+			if w.only[e] {
+				f = append(f, e)
+			}
+		}
+		m = f
+	}
 	return m
+}
+
+// newC30AheadWorld is the leg for indices that DIFFER from the current one by
+// being numerically ahead of it (an index kept from an earlier tracker, or
+// after wrap-around): reduced alphabet so that depth stays cheap.
+func newC30AheadWorld() world {
+	w := newC30World().(*c30world)
+	w.ahead = true
+	w.only = map[string]bool{"notify": true, "wait-cur": true, "wait-ahead1": true, "wait-ahead1000": true, "wait-max": true, "cancel-oldest": true, "terminate": true}
+	return w
+}
+
+// newC30ReplayWorld accepts every event of every leg (replay by event name).
+func newC30ReplayWorld() world {
+	w := newC30World().(*c30world)
+	w.ahead = true
+	return w
 }
 
 func (w *c30world) call(name string, f func()) {
@@ -133,6 +166,12 @@ func (w *c30world) do(ev string) {
 		w.startWait("stale", w.cur-1)
 	case "wait-0":
 		w.startWait("zero", 0)
+	case "wait-ahead1":
+		w.startWait("ahead", w.cur+1)
+	case "wait-ahead1000":
+		w.startWait("ahead", w.cur+1000)
+	case "wait-max":
+		w.startWait("ahead", math.MaxUint64)
 	case "cancel-oldest":
 		p := w.pending()
 		w.lastArg = p[0]
@@ -251,6 +290,12 @@ func (w *c30world) observe() (string, string) {
 			if !x.returned || x.res.err != nil || x.res.idx == x.prev {
 				fail("wait with stale index %d (current %d): %s (want prompt return of a newer index)", x.prev, before, st)
 			}
+		case fresh && x.class == "ahead":
+			// "returns promptly if the state has already changed": the index
+			// differs from the current one, in whichever direction.
+			if !x.returned || x.res.err != nil || x.res.idx == x.prev {
+				fail("wait with index %d, which differs from the current index %d: %s (want prompt return of the current index)", x.prev, before, st)
+			}
 		case fresh && x.class == "cur":
 			// "otherwise returns after the next change ..." and not before.
 			if x.returned {
@@ -364,7 +409,7 @@ func TestC30(t *testing.T) {
 			}
 			return
 		}
-		run := replayBubbleEvents(t, newC30World, c.Events)
+		run := replayBubbleEvents(t, newC30ReplayWorld, c.Events)
 		for i, o := range run.Obs {
 			ev := "init"
 			if i > 0 && i-1 < len(run.Events) {
@@ -391,7 +436,7 @@ func TestC30(t *testing.T) {
 		depth = 1
 	}
 	var bubbleSamples sampleBudget
-	st := exploreBubble(t, newC30World, depth, deadline, func(run *bubbleRun) {
+	visit := func(run *bubbleRun) {
 		key := strings.Join(run.Events, ",")
 		nt := false
 		for _, o := range run.Obs {
@@ -423,22 +468,37 @@ func TestC30(t *testing.T) {
 			evs := append([]string{}, run.Events...)
 			c := c30caseFile{Stage: "bubble", Events: evs}
 			r.Violate("bubble:"+key, run.Violation, c, func() bool {
-				return replayBubbleEvents(t, newC30World, evs).Violation != ""
+				return replayBubbleEvents(t, newC30ReplayWorld, evs).Violation != ""
 			})
 		}
-	})
-	r.Set("bubble_sequences", st.Sequences)
-	r.Set("bubble_events", st.Events)
+	}
+	// Ahead leg first (small): waits whose index is ahead of the current one.
+	aheadDepth := 5
+	if vr.Thorough() {
+		aheadDepth = 6
+	}
+	if os.Getenv("VERIF_SKIP_BUBBLE") != "" {
+		aheadDepth = 1
+	}
+	ah := exploreBubble(t, newC30AheadWorld, aheadDepth, deadline, visit)
+	st := exploreBubble(t, newC30World, depth, deadline, visit)
+	r.Set("bubble_sequences", st.Sequences+ah.Sequences)
+	r.Set("bubble_events", st.Events+ah.Events)
 	r.Set("bubble_depth", depth)
-	r.Set("divergent_replays", st.Divergent)
-	r.Set("bubble_teardown_hangs", st.Hangs)
+	r.Set("bubble_ahead_leg_depth", aheadDepth)
+	r.Set("bubble_ahead_leg_sequences", ah.Sequences)
+	r.Set("divergent_replays", st.Divergent+ah.Divergent)
+	r.Set("bubble_teardown_hangs", st.Hangs+ah.Hangs)
+	if ah.Capped {
+		notExhaustive(r, fmt.Sprintf("E-bubble ahead leg stopped by its time budget after %d sequences of depth %d", ah.Sequences, aheadDepth))
+	}
 	if st.Capped {
 		notExhaustive(r, fmt.Sprintf("E-bubble stage stopped by its time budget after %d sequences of depth %d", st.Sequences, depth))
 	}
 
 	// Stage 2: interleavings inside the calls, on the rewritten package.
 	vs := vschedC30(t, r)
-	rule := fmt.Sprintf("stage 1 (E-bubble, unmodified pkg/state): every sequence of <= %d harness events over {notify, TrackingLock unlock with/without notify, wait(current), wait(stale), wait(0), cancel oldest/newest pending wait, terminate}, <= 2 waits pending, each event followed by quiescence (synctest.Wait) and an immediate-read probe; each sequence executed twice. Non-trivial = at some quiescence a wait was pending; distinct by event sequence.", depth)
+	rule := fmt.Sprintf("stage 1 (E-bubble, unmodified pkg/state): every sequence of <= %d harness events over {notify, TrackingLock unlock with/without notify, wait(current), wait(stale), wait(0), cancel oldest/newest pending wait, terminate}, <= 2 waits pending, each event followed by quiescence (synctest.Wait) and an immediate-read probe; each sequence executed twice. Ahead leg: every sequence of <= %d events over {notify, wait(current), wait(current+1), wait(current+1000), wait(MaxUint64), cancel, terminate}: a wait whose index differs from the current one in EITHER direction must return promptly. Non-trivial = at some quiescence a wait was pending; distinct by event sequence.", depth, aheadDepth)
 	if vs != "" {
 		rule += " " + vs
 	} else {
